@@ -378,7 +378,7 @@ RTC_META = {
     "assumptions": ["torch's verdict on the dense oracle defines which operands are invalid (operands torch accepts are skipped)",
                     "shape operations run with the default settings.debug (on); indices with debug on and off",
                     "add_diagonal oracle: diagonal(D) + d must broadcast; inv_quad oracle: sum(R * solve(D, R))"],
-    "families": "52 zoo cases + 25 extra nested / broadcasting cases x float64 x batch {(),(2,),(1,),(2,3)} x n {1,2,4} (+ float32 (2,) n=3; thorough: 6 batch "
+    "families": "52 zoo cases + 31 extra nested / broadcasting cases x float64 x batch {(),(2,),(1,),(2,3)} x n {1,2,4} (+ float32 (2,) n=3; thorough: 6 batch "
                 "shapes x n {1,2,3,4,6} + float32) x operations {matmul/@/torch.matmul with tensor and operator rhs, rmatmul, +, -, * (both operand "
                 "orders, tensor / DenseLinearOperator / same-class operator of another size or batch), cat (3 dims), expand, add_diagonal, solve, "
                 "torch.linalg.solve, solve with left factor, inv_quad, inv_quad_logdet, 23 square-only operations on rectangular operators} x "
